@@ -603,7 +603,11 @@ def annotate_closures(body, specs, what, log):
         specs = dict((k, v) for k, v in specs.items() if k != '*')
         for k in range(len(cl)):
             specs.setdefault(k, star)
-    for k, txt in specs.items():
+    # one closure at a time, innermost (= later in token order) first, re-locating the closures after each edit:
+    # nested closures (a closure literal inside another closure's body) must not be spliced from stale offsets
+    for k in sorted(specs, reverse=True):
+        txt = specs[k]
+        cl = find_closures(body)
         if k >= len(cl):
             raise LostAnchor(f'{what}: closure {k} not found (body has {len(cl)} closures)')
         start, ps, pe, bs, be, is_block = cl[k]
@@ -623,11 +627,9 @@ def annotate_closures(body, specs, what, log):
             new += ' -> (' + ret + ')'
         new += '\n' + '\n'.join(clauses) + '\n'
         new += inner if is_block else '{ ' + inner + ' }'
-        edits.append((start, be, new))
+        body = body[:start] + new + body[be:]
         log.append({'rule': 'closure-annotation', 'in': what, 'closure': k,
                     'text': 'type/ensures annotation added; closure body kept verbatim'})
-    for a, b, new in sorted(edits, key=lambda x: -x[0]):
-        body = body[:a] + new + body[b:]
     return body
 
 
